@@ -202,7 +202,7 @@ def decide_and_report(prop, tier, seed, runs, undecided, known, index, wall, ext
         tail = '' if (witness and witness.get('failed')) else ' no-failing-input-found'
         lines.append('VIOLATION property=%s replay=%s obligation=%s%s' % (prop, rp, f['id'].replace(' ', '_'), tail)
                      if False else 'VIOLATION property=%s replay=%s%s' % (prop, rp, tail))
-        sys_stderr('  failed obligation: %s\n  %s\n' % (f['id'], (f.get('repo') or '')))
+        sys_stderr('  failed obligation: %s%s\n  %s\n' % (f['id'], ' (seen once the proof aid that no longer holds is left out)' if f.get('without_aid') else '', (f.get('repo') or '')))
         status = 1
 
     samples = []
